@@ -366,6 +366,15 @@ func cmdCheck(args []string) int {
 		level = "proof"
 	}
 	cov := map[string]interface{}{
+		"discharged_from_hinted_hypotheses": func() int {
+			n := 0
+			for _, o := range all {
+				if !o.Cover && o.ok() && strings.Contains(o.Res.Solver, "+hints") {
+					n++
+				}
+			}
+			return n
+		}(),
 		"obligations": nObl, "discharged": nDis, "vacuity_covers": nCover, "vacuity_covers_sat": nCoverSat, "known_finding_canaries": nCanary,
 		"checker_cmd":              fmt.Sprintf("bin/govc check %s --tier %s", id, *tier),
 		"trusted_base":             tb,
